@@ -26,7 +26,8 @@ function verdicts(parser, vals) {
 // is printed as ("a" | "b") instead of ${"a" | "b"}. To keep every OTHER defect of the same text
 // visible, the monitor repairs exactly that spelling and judges the repaired text as well.
 export function repairTemplateHoles(text) {
-  return text.replace(/`(?:[^`\\]|\\.)*`/g, (tpl) => tpl.replace(/\(((?:"(?:[^"\\]|\\.)*"|true|false|\$\{string\}|\$\{number\}|\$\{boolean\})(?: \| (?:"(?:[^"\\]|\\.)*"|true|false|\$\{string\}|\$\{number\}|\$\{boolean\}))+)\)/g, (m, inner) => "${" + inner.replace(/\$\{(string|number|boolean)\}/g, "$1") + "}"));
+  // string literals are skipped as tokens: a backtick inside "back`tick" does not open a template
+  return text.replace(/"(?:[^"\\]|\\.)*"|`(?:[^`\\]|\\.)*`/g, (tpl) => tpl[0] === '"' ? tpl : tpl.replace(/\(((?:"(?:[^"\\]|\\.)*"|true|false|\$\{string\}|\$\{number\}|\$\{boolean\})(?: \| (?:"(?:[^"\\]|\\.)*"|true|false|\$\{string\}|\$\{number\}|\$\{boolean\}))+)\)/g, (m, inner) => "${" + inner.replace(/\$\{(string|number|boolean)\}/g, "$1") + "}"));
 }
 
 // returns null or {clause, cause, detail, text2}
